@@ -84,6 +84,14 @@ class Builder:
             return self.mk("FactorialExpression", self.const())
         if f == "Sgn":
             return self.mk("SgnExpression", self.var())
+        if f.startswith("Negate:"):
+            return self.mk("NegateExpression", self.form(f.split(":", 1)[1]))
+        if f.startswith("Sgn:"):
+            return self.mk("SgnExpression", self.form(f.split(":", 1)[1]))
+        if f.startswith("Paren:"):
+            # a sum / difference / product / quotient / power of two compound operands
+            kind, inner = f.split(":", 1)[1].split("/")
+            return self.mk(kind + "Expression", self.form(inner), self.var())
         raise AnalysisError(f)
 
 
@@ -211,6 +219,17 @@ def analyse_printer(repo: str, use_cache: bool = True) -> List[dict]:
             if parent == "FactorialExpression" and c not in ("Const", "NegConst"):
                 continue  # the parser and the rules only ever build the factorial of a literal
             tasks.append((str(prog.repo), parent, (c,)))
+    # three levels: a negation / function of every form, and a binary node over a compound, as operand of each binary parent
+    deep = [f"Negate:{f}" for f in FORMS if f != "Factorial"] + [f"Sgn:{f}" for f in ("Add", "Negate", "CompactMul")] + \
+           [f"Paren:{k}/{i}" for k in ("Multiply", "Divide", "Power", "Subtract") for i in ("Add", "Negate", "CompactMul", "Power", "NegConst", "Const")] + \
+           [f"Negate:Paren:{k}/{i}" for k in ("Multiply", "Divide", "Power") for i in ("Add", "Negate", "Const")]
+    for parent in BINARY:
+        for d in deep:
+            for sib in ("Var", "Const"):
+                tasks.append((str(prog.repo), parent, (d, sib)))
+                tasks.append((str(prog.repo), parent, (sib, d)))
+    for d in deep:
+        tasks.append((str(prog.repo), "NegateExpression", (d,)))
     nproc = min(int(os.environ.get("VERIF_JOBS", "16")), os.cpu_count() or 1)
     ctx = mp.get_context("fork")
     with ctx.Pool(nproc) as pool:
